@@ -54,6 +54,7 @@ import (
 	feemarkettypes "github.com/evmos/ethermint/x/feemarket/types"
 
 	"github.com/kava-labs/kava/app"
+	kavaante "github.com/kava-labs/kava/app/ante"
 	bep3types "github.com/kava-labs/kava/x/bep3/types"
 	hardtypes "github.com/kava-labs/kava/x/hard/types"
 	pricefeedtypes "github.com/kava-labs/kava/x/pricefeed/types"
@@ -113,11 +114,18 @@ type cfgDesc struct {
 	Deputy  int   `json:"deputy"`  // bep3 deputy (-1: none)
 }
 
+// unitDesc: AuthzLimiterDecorator alone, with an arbitrary disabled list
+type unitDesc struct {
+	Dis  []string `json:"dis"` // kinds (send kava eth vest perm periodic exec grant delegate)
+	Msgs []node   `json:"msgs"`
+}
+
 type c15Hist struct {
-	Seed uint64   `json:"seed"`
-	Idx  int      `json:"history"`
-	Cfg  cfgDesc  `json:"cfg"`
-	Txs  []txDesc `json:"txs"`
+	Seed  uint64     `json:"seed"`
+	Idx   int        `json:"history"`
+	Cfg   cfgDesc    `json:"cfg"`
+	Txs   []txDesc   `json:"txs"`
+	Units []unitDesc `json:"units,omitempty"`
 	// Modes restricts the modes evaluated for every tx (default: all four)
 	Modes []string `json:"modes,omitempty"`
 }
@@ -657,6 +665,99 @@ func (w *c15World) abciStage(txs []txDesc, direct [][]stepOut, modes []string, c
 	}
 	w.acct = w.base
 	return fail
+}
+
+// ------------------------------------------------------------ the authz limiter in isolation
+
+var unitKinds = []string{"send", "kava", "eth", "vest", "perm", "periodic", "exec", "grant", "delegate"}
+
+func genUnit(r *Rng) unitDesc {
+	var u unitDesc
+	n := r.Intn(5)
+	for i := 0; i < n; i++ {
+		u.Dis = append(u.Dis, unitKinds[r.Intn(len(unitKinds))])
+	}
+	var any func(depth int) node
+	any = func(depth int) node {
+		if depth > 0 && r.Chance(45, 100) {
+			x := node{K: "exec", A: r.Intn(c15NKeys)}
+			w := 1 + r.Intn(3)
+			for i := 0; i < w; i++ {
+				x.C = append(x.C, any(depth-1))
+			}
+			return x
+		}
+		if r.Chance(30, 100) {
+			g := node{K: "grant", A: r.Intn(c15NKeys), G: []string{"generic", "generic", "send", "stake"}[r.Intn(4)]}
+			g.T = unitKinds[r.Intn(len(unitKinds))]
+			return g
+		}
+		return node{K: leafKinds[r.Intn(len(leafKinds))], A: r.Intn(c15NKeys)}
+	}
+	m := 1 + r.Intn(3)
+	for i := 0; i < m; i++ {
+		u.Msgs = append(u.Msgs, any(r.Intn(5)))
+	}
+	return u
+}
+
+// unitBlocked: the property's own reading for an arbitrary disabled list — a
+// disabled URL on a message inside some Exec, or as the target of any Grant.
+func unitBlocked(msgs []sdk.Msg, dis map[string]bool, depth int) bool {
+	for _, m := range msgs {
+		if depth > 0 && dis[sdk.MsgTypeURL(m)] {
+			return true
+		}
+		switch x := m.(type) {
+		case *authz.MsgGrant:
+			if au, err := x.GetAuthorization(); err == nil && dis[au.MsgTypeURL()] {
+				return true
+			}
+		case *authz.MsgExec:
+			if inner, err := x.GetMessages(); err == nil && unitBlocked(inner, dis, depth+1) {
+				return true
+			}
+		}
+	}
+	return false
+}
+
+// runUnit drives ante.NewAuthzLimiterDecorator(dis...) with a pass-through next handler.
+func (w *c15World) runUnit(u unitDesc, cnt *Counters) (coq string, fail *Failure) {
+	urls := make([]string, len(u.Dis))
+	dis := map[string]bool{}
+	for i, k := range u.Dis {
+		urls[i] = w.kindURL(k)
+		dis[urls[i]] = true
+	}
+	msgs := make([]sdk.Msg, len(u.Msgs))
+	for i, n := range u.Msgs {
+		msgs[i] = w.build(n, false)
+	}
+	txb := w.txCfg.NewTxBuilder()
+	if err := txb.SetMsgs(msgs...); err != nil {
+		panic(err)
+	}
+	tx, _ := w.wire(txb.GetTx())
+	dec := kavaante.NewAuthzLimiterDecorator(urls...)
+	_, err := dec.AnteHandle(w.base, tx, false, func(ctx sdk.Context, _ sdk.Tx, _ bool) (sdk.Context, error) { return ctx, nil })
+	ok := err == nil
+	blocked := unitBlocked(tx.GetMsgs(), dis, 0)
+	if cnt != nil {
+		cnt.Inc(fmt.Sprintf("unit:blocked=%v:accepted=%v", blocked, ok))
+	}
+	if ok && blocked {
+		fail = &Failure{Predicate: "authz-limiter-refuses-disabled-types-inside", Signature: "authz-limiter-unit-accepts-blocked", Detail: fmt.Sprintf("disabled list %v", urls)}
+	}
+	if !ok && !blocked {
+		fail = &Failure{Predicate: "authz-limiter-refuses-nothing-else", Signature: "authz-limiter-unit-rejects-clean", Detail: fmt.Sprintf("disabled list %v: %v", urls, err)}
+	}
+	ms := tx.GetMsgs()
+	it := make([]string, len(ms))
+	for i, m := range ms {
+		it[i] = "(" + coqMsg(m) + ")"
+	}
+	return fmt.Sprintf("(mkUnit %s %s %s)", coqStrList(urls), List(it), Bool(ok)), fail
 }
 
 // ------------------------------------------------------------ facts about the constructed tx (independent of the model)
@@ -1436,6 +1537,9 @@ func c15Run(h c15Hist, n int, tables anteTables, cnt *Counters, exh []node) hist
 			for i := 0; i < n; i++ {
 				h.Txs = append(h.Txs, c15GenTx(r, h.Cfg, authIdx))
 			}
+			for i := 0; i < n; i++ {
+				h.Units = append(h.Units, genUnit(r))
+			}
 		}
 	}
 	out := histOut{}
@@ -1506,8 +1610,19 @@ func c15Run(h c15Hist, n int, tables anteTables, cnt *Counters, exh []node) hist
 			out.fails = append(out.fails, fa)
 		}
 	}
+	var units []string
+	for i, u := range h.Units {
+		cq, fa := w.runUnit(u, cnt)
+		units = append(units, cq)
+		out.evals++
+		if fa != nil && !hasSig(out.fails, fa.Signature) {
+			fa.History, fa.Step = h.Idx, len(steps)+i
+			fa.Replay = MustJSON(c15Hist{Seed: h.Seed, Idx: h.Idx, Cfg: h.Cfg, Txs: []txDesc{}, Units: []unitDesc{u}, Modes: h.Modes})
+			out.fails = append(out.fails, fa)
+		}
+	}
 	out.hist = h
-	out.coq = fmt.Sprintf("mkHist %s\n  %s\n  %s", w.coqCfg(), tablesCoq(tables), List(steps))
+	out.coq = fmt.Sprintf("mkHist %s\n  %s\n  %s\n  %s", w.coqCfg(), tablesCoq(tables), List(steps), List(units))
 	return out
 }
 
@@ -1706,7 +1821,7 @@ func runC15(o Opts) (*Result, error) {
 	})
 
 	seen := map[string]bool{}
-	perShard := 12
+	perShard := 6
 	var cases []string
 	shard := 0
 	flush := func() error {
